@@ -62,6 +62,7 @@ func workerMain(args []string) {
 }
 
 type Worker struct {
+	Env      []string // extra environment (e.g. TZ=...)
 	cmd      *exec.Cmd
 	in       io.WriteCloser
 	out      *bufio.Reader
@@ -81,7 +82,7 @@ func (w *Worker) start() error {
 		return err
 	}
 	cmd := exec.Command(self, "worker")
-	cmd.Env = append(os.Environ(), "GOMEMLIMIT=6GiB")
+	cmd.Env = append(append(os.Environ(), "GOMEMLIMIT=6GiB"), w.Env...)
 	in, err := cmd.StdinPipe()
 	if err != nil {
 		return err
